@@ -28,6 +28,7 @@ type record struct {
 	Unit             string // metre, foot, us-ft
 	Spelling         int    // WKT parameter-name variant
 	UnitFirst        bool   // WKT clause order: UNIT directly behind GEOGCS instead of last
+	P4Reversed       bool   // PROJ.4 parameters written in the opposite order
 }
 
 var unitToMeter = map[string]float64{"metre": 1, "foot": 0.3048, "us-ft": 1200.0 / 3937.0}
@@ -66,6 +67,15 @@ func (r record) proj4() string {
 		}
 	}
 	b.WriteString(" +no_defs")
+	if r.P4Reversed {
+		// the same parameters in the opposite order (a PROJ.4 string is a set of
+		// key=value pairs: +lat_2 may come before +lat_1, +units before +x_0, ...)
+		f := strings.Fields(b.String())
+		for i, j := 0, len(f)-1; i < j; i, j = i+1, j-1 {
+			f[i], f[j] = f[j], f[i]
+		}
+		return strings.Join(f, " ")
+	}
 	return b.String()
 }
 
@@ -205,7 +215,7 @@ func main() {
 		return
 	}
 	rep := report.New("C20", tier, "exploration")
-	rep.Rule = "E1 lattice: abstract CRS records (Mercator_1SP, Lambert_Conformal_Conic_2SP, Albers, Equidistant_Conic in both parameter spellings, Transverse_Mercator, plain GEOGCS) x parameter sets (northern / southern cones, 1SP) x 4 (6) spheroids by (a, 1/f) x TOWGS84 {none, 3 terms, 7 terms, 7 terms with zero translations, 7 terms with zero rotations} x WKT clause order {UNIT last, UNIT first} x linear unit {metre, foot, US survey foot}, each rendered by two independent renderers as PROJ.4 and as OGC WKT 1 with neutral names; transformers from the own geographic base (and from WGS84 long/lat when a TOWGS84 is stated) must agree within 1 micrometre at 16-20 positions; registered names and aliases against their definitions; every ordered pair of a pool of 44 references differing in one field each (incl. WKT texts sharing their names): parsing twice gives Equal, NewTransform is nil exactly for Equal references, and a nil transformer is returned only for references that transform identically; a .prj read through (*shp.Decoder).SR equals Parse of its text. Non-trivial = records with a non-metre unit, a TOWGS84 clause or the alternative parameter spelling."
+	rep.Rule = "E1 lattice: abstract CRS records (Mercator_1SP, Lambert_Conformal_Conic_2SP, Albers, Equidistant_Conic in both parameter spellings, Transverse_Mercator, plain GEOGCS) x parameter sets (northern / southern cones, 1SP) x 4 (6) spheroids by (a, 1/f) x TOWGS84 {none, 3 terms, 7 terms, 7 terms with zero translations, 7 terms with zero rotations} x WKT clause order {UNIT last, UNIT first} / PROJ.4 parameter order {as usual, reversed}; latitudes of origin incl. 0 and +-90 x linear unit {metre, foot, US survey foot}, each rendered by two independent renderers as PROJ.4 and as OGC WKT 1 with neutral names; transformers from the own geographic base (and from WGS84 long/lat when a TOWGS84 is stated) must agree within 1 micrometre at 16-20 positions; registered names and aliases against their definitions; every ordered pair of a pool of 44 references differing in one field each (incl. WKT texts sharing their names): parsing twice gives Equal, NewTransform is nil exactly for Equal references, and a nil transformer is returned only for references that transform identically; a .prj read through (*shp.Decoder).SR equals Parse of its text. Non-trivial = records with a non-metre unit, a TOWGS84 clause or the alternative parameter spelling."
 	var n, nontrivial int64
 	spheroids := [][2]float64{{6378137, 298.257223563}, {6377397.155, 299.1528128}, {6378206.4, 294.9786982}, {6378388, 297}}
 	spheroids = append(spheroids, [2]float64{6377563.396, 299.3249646}, [2]float64{6378160, 298.25})
@@ -226,6 +236,9 @@ func main() {
 		{Proj: "eqdc", Lat1: 20, Lat2: 60, Lat0: 40, Lon0: -96, X0m: 400000, Y0m: 400000, Spelling: 1},
 		{Proj: "tmerc", Lat0: 49, Lon0: -2, K0: 0.9996012717, X0m: 400000, Y0m: -100000},
 		{Proj: "tmerc", Lat0: 0, Lon0: 117, K0: 0.9999, X0m: 500000, Y0m: 10000000},
+		// latitude of origin at a pole (Belgian Lambert 72 style; a southern equidistant conic)
+		{Proj: "lcc", Lat1: 51.16666723333333, Lat2: 49.8333339, Lat0: 90, Lon0: 4.367486666666666, X0m: 150000.013, Y0m: 5400088.438},
+		{Proj: "eqdc", Lat1: -30, Lat2: -60, Lat0: -90, Lon0: 20, X0m: 0, Y0m: 0},
 		{Proj: "geog", Lon0: 10},
 	}
 	for _, b := range base {
@@ -240,6 +253,7 @@ func main() {
 					recs = append(recs, r)
 					if b.Proj != "geog" {
 						r.UnitFirst = true
+						r.P4Reversed = true // (both variations at once: the two texts are independent)
 						recs = append(recs, r)
 					}
 				}
